@@ -1,4 +1,5 @@
 import Mpd.Command
+import Mpd.Filter
 import MpdSpec.Tokenizer
 import Driver.Util
 /-!
@@ -31,6 +32,18 @@ def parseArg (t : String) : Option Arg :=
   | 's' :: rest => if rest.isEmpty then none else
       (unhex (String.ofList rest)).bind fun b => if validUtf8 b then some (.s b) else none
   | 'r' :: rest => if rest.isEmpty then none else (unhex (String.ofList rest)).map .r
+  -- `f<tag>.<value>`: a filter `(<tag> == "<value>")` with a hand-built catch-all tag as the argument: one
+  -- more renderer of the library, whose output is subject to the same line-feed / NUL scan as any other
+  | 'f' :: rest =>
+    match (String.ofList rest).splitOn "." with
+    | [t, v] =>
+      match (if t.isEmpty then some [] else unhex t), (if v.isEmpty then some [] else unhex v) with
+      | some tb, some vb =>
+        if validUtf8 tb && validUtf8 vb then
+          (Mpd.Filter.render (Mpd.Filter.tag (.other tb) vb)).map .r
+        else none
+      | _, _ => none
+    | _ => none
   | _ => none
 
 def fmtNameErr : CmdErr → String
